@@ -231,6 +231,14 @@ class TemplateGen:
                 uses = [op[0]] + [r.choice(es) for _ in range(r.choice([1, 2]))] + [op[1]] + uses
                 self.features['op-203-under-modifier'] += 1
             tail = [] if unclosed else [203000]
+            defs = list(es)
+            if r.random() < 0.3:
+                # a code / flag table element (or a character element) inside the definition block: it too occupies YYY
+                # bits there (sign and magnitude), whatever its unit, and is used as an ordinary element afterwards
+                other = r.choice(p.codeflag + p.codeflag + p.string[:3])
+                defs.insert(r.randrange(len(defs) + 1), other)
+                uses = uses + [other]
+                self.features['op-203-non-numeric-in-definition'] += 1
             if r.random() < 0.3:
                 tail = tail + [r.choice(es)]           # used again after cancellation
             if r.random() < 0.3:
@@ -240,7 +248,7 @@ class TemplateGen:
                 y2 = r.choice([yy for yy in (8, 12, 16, 20, 24) if yy != y])
                 uses = [203000 + y2, e2, 203255] + [r.choice(es), e2] + uses
                 self.features['op-203-two-phases'] += 1
-            return [203000 + y] + es + [203255] + uses + tail
+            return [203000 + y] + defs + [203255] + uses + tail
         if k == '204':
             y = r.choice([1, 2, 4, 6, 8])
             body = [31021] + inner(r.choice([1, 2, 3]))
